@@ -817,6 +817,15 @@ func registerJSON(e *Engine) {
 	e.reg("encoding/json.Marshal", func(in *interp, fr *frame, a []value) value {
 		v := a[0].(iface)
 		var out []*sym.Term
+		// Marshal(&x) and Marshal(x) give the same document
+		for {
+			pt, ok := v.t.Underlying().(*types.Pointer)
+			p, isPtr := v.v.(*value)
+			if !ok || !isPtr || p == nil {
+				break
+			}
+			v = iface{t: pt.Elem(), v: *p}
+		}
 		in.encodeJSON(v.t, v.v, &out)
 		return tuple{termsToSlice(out), iface{}}
 	})
